@@ -194,7 +194,20 @@ def main(prop, tier):
                 if inflight:
                     kf.setdefault("P24b", []).append(v); continue
             violations.append(v)
-        cov = {"states": max(r.distinct + mst, 1), "transitions": max(r.generated + mtr, 1), "traces_validated_against_impl": len(cs) - len(violations),
+        seen = set(); nontrivial = 0
+        for x in lines:
+            e = json.loads(x)
+            faults = [(o["op"], o["target"]) for o in e["ops"] if o["op"] + ":" + o["target"] not in e["skipped"]]
+            hit = any(o[0] in ("kill", "exit", "crash", "panic", "failinit", "stopapp", "stopnode") for o in faults)
+            died = any(p["inited"] and not p["alive"] for p in e["procs"]) or e["stop"] != ""
+            key = json.dumps([byid[e["p"]]["shape"], e["ops"]], sort_keys=True)
+            if hit and died and key not in seen:
+                seen.add(key); nontrivial += 1
+        cov = {"evaluations": len(cs), "distinct_nontrivial": nontrivial,
+               "rule": "fault scripts are enumerated per shape (every process x fault kind; fault pairs with a gate held in Init or Terminate; failing Init; 2-3 faults in a row; stop calls) plus "
+                       "seeded random ones; a script counts as non-trivial when at least one of its faults found a live target and at least one started process died (or a stop call ran), "
+                       "and as distinct by (shape, operation list)",
+               "states": max(r.distinct + mst, 1), "transitions": max(r.generated + mtr, 1), "traces_validated_against_impl": len(cs) - len(violations),
                "samples": [cs[1], cs[rng.randrange(len(cs))]], "fault_scripts": len(cs), "operations": nops, "operations_without_live_target": skipped,
                "shapes": len(shapes(tier, rng)), "clauses": CLAUSES, "exhaustive": False,
                "design_model": {"TreeModel NotifyOnFail=TRUE": "NoOrphanQ holds", "TreeModel NotifyOnFail=FALSE": "NoOrphanQ violated (the defect repaired by 3cbfff4)"}}
